@@ -504,9 +504,9 @@ func TestDNSStallPoints(t *testing.T) {
 }
 
 // TestMalformedRequests enumerates every malformed request of the list, as first request and as the request after a good
-// announce, on the socket and the KCP endpoint, each followed by a well-behaved client that must be served.
+// announce, on the socket, the KCP and the websocket endpoint, each followed by a well-behaved client that must be served.
 func TestMalformedRequests(t *testing.T) {
-	for _, kind := range []string{vlib.CarTCP, vlib.CarUDP} {
+	for _, kind := range []string{vlib.CarTCP, vlib.CarUDP, vlib.CarHTTP} {
 		for i := range malformedRequests {
 			for _, after := range []bool{false, true} {
 				d := caseDesc{Kind: kind, Stall: stMalformed, Cut: i, Stalled: 1, Good: 1, AfterAnnounce: after}
